@@ -23,7 +23,8 @@ CLAIMED = {
 CLAIMED["C18"] = (
     "compile-fail witness (E0382) + MIR producer/consumer coverage of task queues (R-QUEUE) + must-move path analysis of "
     "popped Box<dyn Task> values (R-LINEAR.task) + examined-Result rule for refusing task sinks (R-SINK) + who-may-call "
-    "rule on completion-ordered combinators in sequence-returning APIs (R-SEQ) + dead-error analysis of Result matches (R-ERRDEAD)",
+    "rule on completion-ordered combinators in sequence-returning APIs (R-SEQ) + dead-error analysis of Result matches (R-ERRDEAD) + increment/decrement pairing on all paths (R-INFLIGHT) + lock-order graph of "
+    "the stealing queues (R-LOCKORDER)",
     "static rules over MIR and a type-level witness: decide that executing a task consumes it, that every queue the "
     "owner can fill is drained on the owner's own path (single-worker liveness), that a task taken out of a queue is "
     "run/returned/re-queued on every path, that a refused task is noticed, that Vec-returning APIs do not collect in "
@@ -42,16 +43,17 @@ CLAIMED["C16"] = (
     "DESIGN.md section 4 C16")
 CLAIMED["C05"] = (
     "MIR variant-routing coverage (R-VARIANT): arms of every switch on the storage enum, key consumption by back ends, "
-    "stem agreement; strategy->storage mapping; who-may-write on num_keys; loop-exit analysis of the Patricia pruning loop (R-PRUNE)",
+    "stem agreement; strategy->storage mapping; who-may-write on num_keys; loop-exit analysis of the Patricia pruning loop (R-PRUNE); "
+    "observer/signature agreement on DAWG state flags (R-SIGNATURE)",
     "static rule over MIR: for every trie operation named by the property and every TrieStorage variant, the arm must read "
     "the variant's storage or use the key, the back end must read the key and belong to the same strategy family",
-    "two clauses of C05 (per-strategy routing, no stub strategy; removal's unlink loop stops at final nodes); value-level trie algorithms are not decided; unimplemented "
+    "three clauses of C05 (per-strategy routing, no stub strategy; removal's unlink loop stops at final nodes; DAWG minimisation keys cover every flag lookups read); value-level trie algorithms are not decided; unimplemented "
     "strategies present in the tree are listed as known findings with failing demonstrations",
     "DESIGN.md section 4 C05, section 3 R-VARIANT")
 CLAIMED["C06"] = (
     "MIR must-pass-through-sanitiser analysis for the in-band occupancy marker (R-TAINT-S, sentinels and sanitiser inferred "
     "structurally, incl. enumerators) + probe-past-tombstone path rule (R-PROBE) + sibling agreement of hash-to-slot reduction "
-    "(R-SIBLING.index) + parallel-vector reshape agreement (R-PARALLEL) + clear() completeness over collection fields (R-CLEAR) + "
+    "(R-SIBLING.index) + parallel-vector reshape agreement incl. whole-element replacement (R-PARALLEL) + clear() completeness over collection fields (R-CLEAR) + "
     "variant-routing coverage (R-VARIANT)",
     "static rules over MIR: a hash from Hasher::finish cannot reach a store into / comparison with HashEntry.hash without "
     "passing a function that tests every sentinel; every map operation x HashMapStorage variant reaches a back end that "
@@ -73,7 +75,8 @@ CLAIMED["C15"] = (
     "DESIGN.md section 4 C15, section 3 R-GUARD/R-ALLOC")
 CLAIMED["C19"] = (
     "MIR must-precede / must-pass-through analysis over resolved callees (R-ORDER), open-time size-guard rule (R-GUARD.open) "
-    "and the taint analysis with header fields as untrusted integers (incl. R-ARITH.mul); CFG cut rule for var_uint readers (R-TRUNC)",
+    "and the taint analysis with header fields as untrusted integers (incl. R-ARITH.mul); CFG cut rule for var_uint readers (R-TRUNC); "
+    "who-may-call rule on Drop for MmapVec (R-ORDER.drop); continuation threshold of the var_uint writer (R-VARINT.threshold)",
     "static rules: growth persists capacity only after File::set_len and remap; writers sync before returning Ok; "
     "MmapVec::open compares the header's capacity with the file length before Ok; loaders never size or index from header "
     "fields unchecked",
@@ -83,7 +86,7 @@ CLAIMED["C19"] = (
 CLAIMED["C13"] = (
     "MIR layout-event agreement between writers and readers (R-PAIR, strong projection), per-marker arm agreement for constant "
     "one-byte presence/kind markers (R-PAIR.marker), inverse dispatch tables (R-VARIANT.inverse) and flush-before-seek ordering of the "
-    "buffering writer (R-ORDER)",
+    "buffering writer (R-ORDER); continuation threshold of LEB128 writers (R-VARINT.threshold)",
     "static rules over MIR: every DataOutput::write_K x DataInput::read_K implementor pair and every serialize/deserialize "
     "pair of the io files must produce the same sequence of multi-byte integer widths+endianness, primitive kinds and nested "
     "(de)serialisations; each VarIntStrategy variant must decode with the helper family it encodes with",
@@ -94,11 +97,12 @@ for _pid, _what, _extra_t, _extra_w in (
          "; who-writes rule on BitVector.len / .blocks in shrinking methods (R-SHRINK); last-word mask rule (R-TAILMASK)",
          "; BitVector's pop/resize/clear clear the storage they vacate (whole-word popcounts rely on it)"),
         ("C09", "indexed accessors of the compressed integer containers refuse reads past the end",
-         "; chunks_exact tail-handling rule (R-REMAINDER)",
-         "; no chunked scan of the values ignores its remainder"),
+         "; chunks_exact tail-handling rule (R-REMAINDER); no refusing range check on an already narrowed value (R-NARROWCHECK); "
+         "dominating refusing comparison on every value handed to a fixed-width packer of the SortedUintVec builder (R-WIDTHCHECK)",
+         "; no chunked scan of the values ignores its remainder; block base and delta are refused when wider than their configured width"),
         ("C10", "index parameters are guarded before unchecked access; push/pop examine fullness/emptiness before touching a slot",
          "; wrapped-cursor store rule (R-WRAP), empty-by-construction range rule (R-EMPTYRANGE), sync-before-remap ordering (R-ORDER), "
-         "clear() completeness (R-CLEAR), bulk-vs-single effect agreement (R-SIBLING.batch)",
+         "clear() completeness (R-CLEAR), bulk-vs-single effect agreement (R-SIBLING.batch), end-derived-from-start of bump ranges (R-RANGE.dep)",
          "; ring cursors are only stored wrapped; drop loops of shrinking operations are not empty by construction; MmapVec "
          "writes its mapping back before re-reading the file")):
     CLAIMED[_pid] = (
@@ -116,7 +120,9 @@ CLAIMED["C01"] = (
     "DESIGN.md section 4 C01, section 3 R-MISS / R-PAIR")
 CLAIMED["C02"] = (
     "MIR layout-event agreement per match-type arm at byte and bit level (R-PAIR), tag->variant tables, store/load path symmetry "
-    "with devirtualisation of dyn fields by who-may-write (R-SYM), tag/payload-kind correlation over framing sites (R-TAGKIND)",
+    "with devirtualisation of dyn fields by who-may-write (R-SYM), tag/payload-kind correlation over framing sites (R-TAGKIND), "
+    "cleared-before-use analysis of scratch vectors up the private call chain with loop membership (R-SCRATCH), continuation threshold "
+    "of LEB128 size-field writers (R-VARINT.threshold)",
     "static rules over MIR: per CompressionType arm the writer's operand layout equals the reader's; tag k decodes to the variant "
     "with discriminant k; every compress path (incl. raw fallback) has an inverse path in decompress for every impl Compressor and "
     "the hybrid / real-time front ends",
@@ -125,7 +131,8 @@ CLAIMED["C02"] = (
     "DESIGN.md section 4 C02, section 3 R-PAIR / R-SYM")
 CLAIMED["C03"] = (
     "MIR store/load path symmetry for every wrapper impl BlobStore and the DictZip entropy stage (R-SYM with codec-family stems), "
-    "content flow of persistent fields (R-FLOW), header layout agreement (R-PAIR), batch-vs-single effect agreement (R-SIBLING.batch)",
+    "content flow of persistent fields (R-FLOW), header layout agreement (R-PAIR), batch-vs-single effect agreement (R-SIBLING.batch), "
+    "wrapper delegation to the inner store (R-DELEGATE), field restoration in derive-generated deserialisers (R-FLOW.serde)",
     "static rules over MIR: what put applies get inverts on every put path; save/load carry the content of every persistent field; "
     "header writer and reader agree",
     "three structural clauses of C03; id allocation, len/contains/size bookkeeping, offset arithmetic and bitmap logic are not decided",
@@ -142,7 +149,7 @@ CLAIMED["C08"] = (
 CLAIMED["C17"] = (
     "MIR must-pass-through / who-may-call analysis of the eviction path (R-ORDER/R-FLOW), lock-order graph with read/write modes "
     "(R-LOCKORDER), recency refresh on every entry access (R-TOUCH), index-lock coverage of list operations (R-LOCKCOV.lru), clear() "
-    "completeness (R-CLEAR) and "
+    "completeness (R-CLEAR), no eviction before an in-place update (R-ORDER.evict) and "
     "routing purity of the shard selector",
     "static rules over MIR: evict_lru invokes the callback exactly once on the entry it unlinks and only when the map is full; the "
     "locks of LruMap are acquired in one order; the shard for a key depends on the key and on no thread id / counter / clock",
@@ -153,7 +160,8 @@ CLAIMED["C07"] = (
     "MIR taint/bit-width analysis of capacity guards (R-ARITH/R-GUARD), class-size provenance (R-CLASS), raw-owner-pointer escape + "
     "compile-fail witnesses (R-OWN), must-consume analysis (R-LINEAR), who-may-drop-an-arena (R-ARENA), commit-before-check on atomic "
     "cursors (R-COMMIT), relink-inside-retry-loop on CAS pushes (R-ABA.relink), capacity/request consistency of recycled mmap regions "
-    "(R-VIEW), refusal test on the carve cursor (R-GUARD.cursor)",
+    "(R-VIEW), refusal test on the carve cursor (R-GUARD.cursor), upper-bound comparison in pointer validators (R-GUARD.region), "
+    "end-derived-from-start of bump ranges (R-RANGE.dep), check-then-act across two critical sections (R-LOCKSPLIT)",
     "static rules over MIR and borrow-checker witnesses: a capacity check cannot be wrapped by the request size; a block is carved at "
     "the size of the class it is filed under; RAII guards are tied to their pool; a freed chunk is always handed back; a live arena is "
     "never freed by an allocation path",
